@@ -17,3 +17,26 @@ void harness(void) {
   __CPROVER_assert(0, "COVER load returned");
 }
 #endif
+
+#if defined(H_LOAD_LOOP)
+/* any non-empty buffer; the streaming decoder with the builder table is represented by K' */
+void harness(void) {
+  VERIF_ALLOC_RESET();
+  verif_bind_allocator();
+  g_k = 0; g_s.valid = false;
+  g_b.append_calls = 0; g_b.appended = NULL; g_b.expect = false; g_b.expect_push = false;
+  g_d.calls = 0; g_d.hits = 0; g_d.last = NULL;
+  struct cbor_load_result *res = mk_block(sizeof(*res));
+  size_t in_size = nondet_size();
+  __CPROVER_assume(in_size >= 1 && in_size <= VERIF_MAXOBJ);
+  unsigned char *src = mk_block(in_size);
+  cbor_item_t *r = cbor_load(src, in_size, res);
+  __CPROVER_assert(r != NULL, "COVER load failed");
+  __CPROVER_assert(r == NULL, "COVER load succeeded");
+  __CPROVER_assert(!(r == NULL && res->error.code == CBOR_ERR_NOTENOUGHDATA && res->read > 0), "COVER truncated after some heads");
+  __CPROVER_assert(!(r == NULL && res->error.code == CBOR_ERR_MALFORMATED), "COVER malformed");
+  __CPROVER_assert(!(r == NULL && res->error.code == CBOR_ERR_MEMERROR), "COVER memory error");
+  __CPROVER_assert(!(r == NULL && res->error.code == CBOR_ERR_SYNTAXERROR), "COVER syntax error");
+  __CPROVER_assert(!(r != NULL && res->read < in_size), "COVER item followed by more bytes");
+}
+#endif
